@@ -183,13 +183,16 @@ func (p Profile) genStep(t *rapid.T, conns int, table []Op) Step {
 			st.Rcpts = append(st.Rcpts, Ref{Kind: k, N: uni(t, "rcpt_n", 6)})
 		}
 	case OpTypeAdd, OpGetID:
-		st.Name = pick(t, "tname", []string{"", "a", "a", "b", "b", "c", "pose.v1"})
+		st.Name = pick(t, "tname", []string{"", "a", "a", "a", "b", "b", "b", "c", "pose.v1", " a", "a ", "\tb\n", "A", "\x00", "é"})
 	case OpGetName, OpCompList, OpSub, OpUnsub:
 		st.Typ = genTypRef(t)
 	case OpCompAdd, OpCompUpdate:
 		st.Typ = genTypRef(t)
 		st.Ent = genEntRef(t)
 		st.Data = genData(t)
+		if uni(t, "comp_big", 16) == 0 {
+			st.BigLen = pick(t, "comp_biglen", []int{10240, 10241, 20000, 70000})
+		}
 	case OpCompDel:
 		st.Typ = genTypRef(t)
 		st.Ent = genEntRef(t)
@@ -210,7 +213,7 @@ func (p Profile) genStep(t *rapid.T, conns int, table []Op) Step {
 		}
 	case OpAction:
 		st.Ent = genEntRef(t)
-		st.Name = pick(t, "aname", []string{"", "x", "x", "x", "y", "z"})
+		st.Name = pick(t, "aname", []string{"", "x", "x", "x", "x", "y", "z", " x", "x "})
 		st.TSec = pick(t, "tsec", []int64{0, 1, 5, 5, 5, 7, 10, 253402300799, -1})
 		st.TNano = pick(t, "tnano", []int32{0, 0, 1, 999999999})
 		st.Data = genData(t)
@@ -222,7 +225,7 @@ func (p Profile) genStep(t *rapid.T, conns int, table []Op) Step {
 		}
 	case OpAsset:
 		st.Ent = genEntRef(t)
-		st.Name = pick(t, "asset", []string{"", "asset-a", "asset-a", "asset-b"})
+		st.Name = pick(t, "asset", []string{"", "asset-a", "asset-a", "asset-b", " ", "asset-a "})
 	case OpQuad:
 		st.F = genDagazF(t, 6*(1+uni(t, "nquads", 3)), true)
 		st.NoSub = p.NilSub && uni(t, "nosub", 8) == 0
